@@ -159,6 +159,33 @@ func runCarriedAccumulator(p *Prog, r *Report) {
 							innerDepth--
 							return false
 						}
+					case *ast.CallExpr:
+						// a local closure that appends to a captured text: the call appends
+						if cid, ok := ast.Unparen(v.Fun).(*ast.Ident); ok {
+							if co := info.ObjectOf(cid); co != nil {
+								if def := fn.SingleDef(co); def != nil {
+									if lit, ok := ast.Unparen(def).(*ast.FuncLit); ok {
+										ast.Inspect(lit.Body, func(z ast.Node) bool {
+											zid, ok := z.(*ast.Ident)
+											if !ok {
+												return true
+											}
+											zv, ok := info.ObjectOf(zid).(*types.Var)
+											if !ok || zv.IsField() || !isTextAccumType(zv.Type()) {
+												return true
+											}
+											if zv.Pos() >= lit.Pos() && zv.Pos() < lit.End() {
+												return true
+											}
+											if k, ok := classify(zid); ok && k == 1 {
+												uses[zv] = append(uses[zv], accumUse{v, 1, innerDepth > 0})
+											}
+											return true
+										})
+									}
+								}
+							}
+						}
 					case *ast.Ident:
 						vv, ok := info.ObjectOf(v).(*types.Var)
 						if !ok || vv.IsField() || !isTextAccumType(vv.Type()) {
@@ -955,6 +982,55 @@ func runDoubleAccumulation(p *Prog, r *Report) {
 					out[o] = true
 					continue
 				}
+				// builder writes: b.WriteString(…), fmt.Fprintf(&b, …)
+				if es, ok := s.(*ast.ExprStmt); ok {
+					if call, ok := es.X.(*ast.CallExpr); ok {
+						var dst ast.Expr
+						switch calleeFull(info, call) {
+						case "fmt.Fprintf", "fmt.Fprint", "fmt.Fprintln":
+							if len(call.Args) > 0 {
+								if u, ok := ast.Unparen(call.Args[0]).(*ast.UnaryExpr); ok && u.Op == token.AND {
+									dst = u.X
+								}
+							}
+						default:
+							if sel, ok := call.Fun.(*ast.SelectorExpr); ok && (sel.Sel.Name == "WriteString" || sel.Sel.Name == "WriteByte" || sel.Sel.Name == "WriteRune") {
+								dst = sel.X
+							}
+						}
+						if id, ok := dst.(*ast.Ident); ok && isTextAccumType(info.TypeOf(id)) {
+							out[info.ObjectOf(id)] = true
+						}
+					}
+					continue
+				}
+				// a switch with a default clause: appended to on every path iff in every clause
+				if sw, ok := s.(*ast.SwitchStmt); ok {
+					var acc map[types.Object]bool
+					hasDefault := false
+					for _, c := range sw.Body.List {
+						cc := c.(*ast.CaseClause)
+						if cc.List == nil {
+							hasDefault = true
+						}
+						m := coverStmts(cc.Body)
+						if acc == nil {
+							acc = m
+						} else {
+							for o := range acc {
+								if !m[o] {
+									delete(acc, o)
+								}
+							}
+						}
+					}
+					if hasDefault {
+						for o := range acc {
+							out[o] = true
+						}
+					}
+					continue
+				}
 				if is, ok := s.(*ast.IfStmt); ok && is.Else != nil {
 					a := coverStmts(is.Body.List)
 					var b map[types.Object]bool
@@ -977,7 +1053,13 @@ func runDoubleAccumulation(p *Prog, r *Report) {
 			if _, ok := n.(*ast.FuncLit); ok {
 				return false
 			}
-			if rs, ok := n.(*ast.RangeStmt); ok {
+			rs, ok := n.(*ast.RangeStmt)
+			if !ok {
+				if fs, isFor := n.(*ast.ForStmt); isFor {
+					rs = countingAsRange(fs)
+				}
+			}
+			if rs != nil {
 				if accs := coverStmts(rs.Body.List); len(accs) > 0 {
 					loops = append(loops, accLoop{rs, accs})
 				}
